@@ -55,7 +55,7 @@ TNext == /\ \/ Is("clear") /\ Clear
             \/ Is("leak") /\ Quiet /\ E.apps = <<>>
             \/ Is("freeall") /\ Quiet /\ E.apps = <<>>
             \/ Is("report") /\ TReport
-         /\ ObsOK
+         /\ ObsOK /\ ops' = ops
 TReset == Is("reset") /\ filled' = 0 /\ limit' = Top /\ extent' = 0 /\ nul' = 0 /\ rep' = NoRep /\ ops' = 0 /\ listing' = Idle
 TSpec == TInit /\ [][TNext \/ TReset]_tvars
 Accepted == TLCGet("stats").diameter - 1 = Len(Tr)
@@ -67,7 +67,7 @@ PNext == \/ Is("clear") /\ Clear
          \/ Is("leak") /\ Quiet
          \/ Is("freeall") /\ Quiet
          \/ Is("report") /\ Report(E.n, IF E.n = 0 THEN <<>> ELSE Rets(Listing(E.apps)), NumDigits(E.n), E.warn, TRUE)
-PSpec == TInit /\ [][PNext \/ TReset]_tvars
+PSpec == TInit /\ [][(PNext /\ ops' = ops) \/ TReset]_tvars
 Predict == (l > 1 /\ l - 1 >= atoi(IOEnv.FROM_LINE_N)) =>
               PrintT(<<"BEH", ToJson([line |-> l - 1, filled |-> filled, limit |-> limit, extent |-> extent, rep |-> rep])>>)
 =============================================================================
